@@ -319,6 +319,10 @@ func (g *G) HParam(contactLike bool) string {
 		} else {
 			val = g.SmallNum(7200)
 		}
+		if !g.Strict && g.R.Chance(1, 8) {
+			// not a number at all
+			val = g.R.Pick([]string{"36x", "x36", "3x6", "-1", "+60", "1.5", "0x10", "60s", "1e3", "3600.", "12-", "~5"})
+		}
 	case 4:
 		name = g.R.Pick([]string{"q", "Q"})
 		val = g.QVal()
